@@ -58,12 +58,13 @@ type SimNet struct {
 
 // StreamFault is a fault on a LoadDag stream.
 type StreamFault struct {
-	Kind  string `json:"kind"` // dup-vertex, dup-trx, unknown-parent, second-self-sealed, empty-trx, cut, none
+	Kind  string `json:"kind"` // dup-vertex, dup-trx, unknown-parent, unknown-right-parent, unknown-left-parent, second-self-sealed, empty-trx, cut, tampered-*, none
 	Index int    `json:"index"`
 	fired bool
 	// closedPrefix: for "cut": what was delivered before the stream broke off is itself a well-formed
 	// smaller DAG (every declared parent delivered too, or the vertex is a root)
 	closedPrefix bool
+	tampered     *pb.Vertex // for "tampered-*": the altered vertex as it was sent
 }
 
 func newSimNet(w *World) *SimNet { return &SimNet{w: w, cut: map[[2]int]bool{}} }
@@ -464,6 +465,20 @@ func (d *dagServerStream) Send(v *pb.Vertex) error {
 		f.fired = true
 		st.net.w.fault("stream:" + f.Kind)
 		switch f.Kind {
+		case "tampered-amount", "tampered-data", "tampered-signature":
+			// the vertex itself is altered in transit; hashes and the other signatures stay as sealed
+			switch {
+			case f.Kind == "tampered-amount" && cp.Transaction != nil && cp.Transaction.Spice != nil:
+				cp.Transaction.Spice.Currency += 7
+			case f.Kind == "tampered-data" && cp.Transaction != nil:
+				cp.Transaction.Data = append(append([]byte{}, cp.Transaction.Data...), 'x')
+			default:
+				if len(cp.Signature) > 0 {
+					cp.Signature = append([]byte{}, cp.Signature...)
+					cp.Signature[0] ^= 1
+				}
+			}
+			f.tampered = cp
 		case "cut":
 			have := map[string]bool{}
 			for _, pv := range st.seen[:len(st.seen)-1] {
